@@ -56,6 +56,8 @@ FUNCS = {
                         words=['flatToPos'], defined_in='C08.lean', targets=['flat_to_pos']),
     'spline_coeff': dict(tie=T + 'Spline', theorems=['Mahotas.cscalar_spline_coeff_eq_model'],
                          words=['splineCoeff'], defined_in='C18.lean', targets=['spline_coeff']),
+    'dt_intersect': dict(tie=T + 'DtIntersect', theorems=['Mahotas.cscalar_dt_intersect_eq_model'],
+                         words=['sInt'], defined_in='C05.lean', targets=['dt_intersect']),
     'rank_currank': dict(tie=T + 'CurRank', theorems=['Mahotas.cscalar_rank_currank_eq_model'],
                          words=['curRankG'], defined_in='C07.lean', targets=['rank_currank']),
     'find2d_marks': dict(tie=T + 'Find2d', theorems=['Mahotas.cscalar_find2d_marks_eq_model'],
@@ -214,6 +216,12 @@ def _unit(srcs: dict) -> str:
         # the selected `switch (order)` statement as it stands, around one slot of `result`
         s.append('extern "C" double cs_spline_coeff(long order_, double y, double r0) { typedef double FT; const int order = (int)order_; '
                  'double result[1] = { r0 }; const int hh = 0; ' + srcs['spline_coeff']['slice'] + ' return result[0]; }')
+    if 'dt_intersect' in have:
+        s.append('#include <vector>')
+        s += srcs['dt_intersect'].get('helpers', [])
+        s.append('extern "C" double cs_dt_intersect(double fq, long q_, double fv, long vk) { typedef double BaseType; const int q = (int)q_; '
+                 'const int stride = 1; int k = 0; int v[1] = { (int)vk }; std::vector<double> fvec((q > vk ? q : vk) + 1); double* f = &fvec[0]; '
+                 'f[q] = fq; f[vk] = fv; double s = 0; ' + srcs['dt_intersect']['slice'] + ' return s; }')
     if 'rank_currank' in have:
         s.append('extern "C" long cs_rank_currank(long n, long N2, long rank) { ' + srcs['rank_currank']['slice'] + ' return currank; }')
     if 'find2d_marks' in have or 'find2d_accesses' in have:
@@ -262,7 +270,7 @@ def _unit(srcs: dict) -> str:
 GROUPS = [['fix_offset'], ['t_abs'], ['subm_elem'], ['margin_of'], ['erode_sub', 'erode_sub_bool'], ['dilate_add', 'dilate_add_bool'],
           ['isLeft'], ['forward_cmp'], ['reverse_cmp'], ['at_flat'], ['pos_to_flat'], ['flat_to_pos'],
           ['sum_rect', 'csum_rect', 'haar_x', 'haar_y'], ['roll_right', 'lbp_map'], ['find2d_marks', 'find2d_accesses'],
-          ['spline_coeff'], ['rank_currank']]
+          ['spline_coeff'], ['rank_currank'], ['dt_intersect']]
 _LIB = {}
 _SRCS = None
 
@@ -373,6 +381,10 @@ def _real_rows(case):
         f = lib.cs_spline_coeff
         f.restype, f.argtypes = ctypes.c_double, [ctypes.c_long, ctypes.c_double, ctypes.c_double]
         out = [str(core.f2bits(f(o, core.bits2f(y), core.bits2f(r0)))) for o, y, r0 in case['rows']]
+    elif fn == 'dt_intersect':
+        f = lib.cs_dt_intersect
+        f.restype, f.argtypes = ctypes.c_double, [ctypes.c_double, ctypes.c_long, ctypes.c_double, ctypes.c_long]
+        out = [str(core.f2bits(f(core.bits2f(fq), q, core.bits2f(fv), vk))) for fq, q, fv, vk in case['rows']]
     elif fn == 'rank_currank':
         f = lib.cs_rank_currank
         f.restype, f.argtypes = ctypes.c_long, [ctypes.c_long] * 3
@@ -659,6 +671,19 @@ def _cases_spline(rng, tier):
     return [dict(fn='spline_coeff', rows=ch, src='boundary') for ch in _chunks(rows, 2000)]
 
 
+def _cases_dt(rng, tier):
+    """roots 0 <= v[k] < q < 5000 with sample values that are integers, halves, the finite `infinity` fill values of distance.py
+    and large doubles (the quotient is then rounded: the order of the two divisions is observable)"""
+    rows = []
+    for _ in range(dict(quick=1500, thorough=30000, search=8000)[tier]):
+        q = rng.choice([rng.randint(1, 12), rng.randint(1, 4999)])
+        vk = rng.randint(0, q - 1)
+        val = lambda: rng.choice([0.0, float(rng.randint(0, 50)), float(rng.randint(0, 10 ** 7)), rng.randint(0, 99) / 2, 1e12 + rng.randint(0, 999),
+                                  rng.random() * 1e6, float(2 ** 31 + rng.randint(0, 99))])
+        rows.append([core.f2bits(val()), q, core.f2bits(val()), vk])
+    return [dict(fn='dt_intersect', rows=ch, src='random') for ch in _chunks(rows, 1500)]
+
+
 def _cases_currank(rng, tier):
     """every (n, N2, rank) with rank < N2 <= 12, n <= N2; random footprints up to 2^20 samples (n * rank below 2^53)"""
     rows = [[n, n2, r] for n2 in range(1, 13) for n in range(0, n2 + 1) for r in range(0, n2)]
@@ -671,6 +696,7 @@ def _cases_currank(rng, tier):
 GENERATORS = {
     'spline_coeff': _cases_spline,
     'rank_currank': _cases_currank,
+    'dt_intersect': _cases_dt,
     'find2d_marks': lambda rng, tier: _cases_find2d('find2d_marks', rng, tier),
     'find2d_accesses': lambda rng, tier: _cases_find2d('find2d_accesses', rng, tier),
     'flat_to_pos': _cases_flat_to_pos,
